@@ -23,7 +23,7 @@ from lib import coq_list
 COQ_TARGETS = ["theories/Proofs/CacheLemmas.vo", "theories/Proofs/CacheMemo.vo", "theories/Model/CacheToy.vo"]
 WORKER = os.path.join(lib.VERIF, "harness", "c12_worker.py")
 THEOREMS = ["C12_memo_transparent", "C12_memo_transparent_immutable", "C12_history_independent",
-            "C12_inputs_untouched", "C12_refuted_strload_alias",
+            "C12_inputs_untouched",
             "C12_refuted_union_order", "C12_refuted_predicate_spelling", "C12_full_refuted"]
 MAXIDX = 8
 
